@@ -10,7 +10,8 @@ try:
         if fam == 'sender': r = g.sender(i+1, wrap=[0,0,254,255][i%4] if i%8==3 else 0)
         elif fam == 'sendertcp': r = g.sender(i+1, tcp=True)
         elif fam == 'receiver': r = g.receiver(i+1, wrap=[0,253,255][i%3] if i%5==4 else 0)
-        elif fam == 'link': r = g.link(i+1)
+        elif fam == 'link': r = g.link(i+1, wrap=[0,0,0,250][i%4])
+        elif fam == 'rt': r = g.senders_rt(i+1, reconnect=(i%2==1))
         elif fam == 'hb': r = g.heartbeat(i+1)
         elif fam == 'close': r = g.with_close([g.sender, g.receiver, g.link, g.heartbeat][i%4](i+1))
         elif fam == 'burst': r = g.burst(i+1, 2 + i % 20, ['ready','stalled','intermittent'][i%3])
@@ -22,7 +23,7 @@ try:
     b = vlib.build_test(w, './drive/', w.path('drive.test'))
     print('build', round(time.time()-t0,1))
     t0 = time.time()
-    info = vlib.run_driver(b, 'TestTunnelSchedules', sched, w.path('trace.ndjson'))
+    info = vlib.run_driver(b, 'TestTunnelSchedules', sched, w.path('trace.ndjson'), mode=('real' if fam=='rt' else 'bubble'))
     print('drive', round(time.time()-t0,1), {k: len(v) for k, v in info.items()}, sum(1 for _ in open(w.path('trace.ndjson'))), 'events')
     for k in info:
         for c in info[k][:2]: print(k, c['run'], c['text'][-600:])
